@@ -650,6 +650,9 @@ class Quantity:
 
             return other.frombase(self._tobase(value))
         else:
+            # same unit: no conversion needed
+            if to_unit == self._unit:
+                return value
             return self.Convert(value, to_unit)
 
     def Convert(self, value: T, to_unit: str) -> T:
